@@ -8,7 +8,7 @@ Line protocol (one case per line):
     -> seq=<stages `|` groups `;` members `,`> strong= weak= all= scd= wcd= scd0= grp= self= ic= oc= ica= oca=
   chain <mode> <ldisc> ... | x=1/2 ...
        ldisc = name:in1,in2>out1=c;in1=a;in2=b,out2=c   mode = mdo | seqchain | mda | mdapar | mdags
-    -> in=<names> out=<names> val=<name=value,...>
+    -> in=<names> out=<names> mdas=<groups of the inner MDAs | -> val=<name=value,...>
   init <disc/defaults> ... | avail1,avail2     disc/defaults = name:ins>outs/def1,def2
     -> order=<indices> | E:value
 -/
@@ -54,7 +54,7 @@ def graphAnswer (ds : List Disc) : String :=
   let seq := sequence ds
   let strong := strongCouplings ds seq
   let all := allCouplings ds
-  s!"seq={showSeq seq} strong={showNames strong} weak={showNames (weakCouplings ds seq)} all={showNames all} scd={showIdx (sortNat (stronglyCoupled ds seq true))} wcd={showIdx (sortNat (weaklyCoupled ds seq))} scd0={showIdx (sortNat (stronglyCoupled ds seq false))} grp={showGroups (stronglyCoupledGroups ds seq true)} self={showIdx ((List.range n).filter (selfCoupledAt ds))} ic={perDisc ds (fun i => inputCouplings ds i strong)} oc={perDisc ds (fun i => outputCouplings ds i strong)} ica={perDisc ds (fun i => inputCouplings ds i all)} oca={perDisc ds (fun i => outputCouplings ds i all)} edges={showEdges (disciplinesCouplings ds)}"
+  s!"seq={showSeq seq} strong={showNames strong} weak={showNames (weakCouplings ds seq)} all={showNames all} scd={showIdx (sortNat (stronglyCoupled ds seq true))} wcd={showIdx (sortNat (weaklyCoupled ds seq))} scd0={showIdx (sortNat (stronglyCoupled ds seq false))} grp={showGroups (stronglyCoupledGroups ds seq true)} grp0={showGroups (stronglyCoupledGroups ds seq false)} self={showIdx ((List.range n).filter (selfCoupledAt ds))} ic={perDisc ds (fun i => inputCouplings ds i strong)} oc={perDisc ds (fun i => outputCouplings ds i strong)} ica={perDisc ds (fun i => inputCouplings ds i all)} oca={perDisc ds (fun i => outputCouplings ds i all)} edges={showEdges (disciplinesCouplings ds)} find={showIdx ((sortDedup (ds.flatMap (·.outputs))).filterMap (findDiscipline ds))} unstable=[]"
 
 def parseKV (t : String) : Option (String × Rat) :=
   match t.splitOn "=" with
@@ -104,7 +104,8 @@ def chainAnswer (mode : String) (lds : List LinDisc) (ext : List (String × Rat)
     else if mode = "seqchain" then chainEval (flatSeq.map run) e0
     else mdaChainEval seq run (requiresMda ds) (solveGroupBlock lds)
       (fun g => g.flatMap (outputsAt ds)) (mode = "mdapar") e0
-  s!"in={showNames ins} out={showNames outs} val={showVals e1 (sortDedup (gr.1 ++ gr.2))}"
+  let mdas := if mode = "mdo" || mode = "seqchain" then "-" else showGroups (stronglyCoupledGroups ds seq true)
+  s!"in={showNames ins} out={showNames outs} mdas={mdas} val={showVals e1 (sortDedup (gr.1 ++ gr.2))}"
 
 def parseInitDisc (t : String) : Option (Disc × List String) :=
   match t.splitOn "/" with
